@@ -1,4 +1,15 @@
 import Emboss.Properties.C10
 open Emboss.Tok
+#print axioms C10_regex_fuel_sufficient
+#print axioms C10_tokenize_fuel_sufficient
+#print axioms C10_regex_sound
+#print axioms C10_lossless
+#print axioms C10_lossless_line
+#print axioms C10_longest_match
+#print axioms C10_line_numbers
+#print axioms C10_newlines
+#print axioms C10_indent_balanced
+#print axioms C10_indent_step
 #print axioms C10_doc_table_is_code_table
 #print axioms C10_table_wf
+#print axioms C10_table_reserved_syms
